@@ -23,7 +23,7 @@ A construct outside this subset stops the translator (exit 1 = broken obligation
 Usage: access.py <repo_include_dir> <out.v>.  Part of the trusted base (DESIGN.md section 4.3)."""
 import re, sys, os
 
-TOK = re.compile(r'(0[xX][0-9a-fA-F]+(?:ULL|UL|U|LL|L)?|\d+(?:ULL|UL|U|LL|L)?|[A-Za-z_][A-Za-z_0-9]*(?:::[A-Za-z_][A-Za-z_0-9]*)*'
+TOK = re.compile(r'(\'(?:\\.|[^\'\\])\'|0[xX][0-9a-fA-F]+(?:ULL|UL|U|LL|L)?|\d+(?:ULL|UL|U|LL|L)?|[A-Za-z_][A-Za-z_0-9]*(?:::[A-Za-z_][A-Za-z_0-9]*)*'
                  r'|<<=|>>=|\|=|\^=|&=|\+=|-=|\+\+|--|<<|>>|<=|>=|==|!=|&&|\|\||[-+*/%|&^~?:()\[\],;={}<>!.])')
 
 class TErr(Exception):
@@ -90,9 +90,10 @@ TRIE = dict(file='trie.hpp', cls='trie', pfx='trg_', rec='trie', cpfx=None,
        members={'m_num_keys': F('N', 't_nkeys s'), 'm_table': F(CT, 't_table s'), 'm_terms': F(BV, 't_terms s'),
                 'm_bcvec': F(BCV, 't_bc s'), 'm_tvec': F(TV, 't_tail s')},
        funcs=['get_suffix', 'npos_to_id', 'id_to_npos', 'bin_mode', 'num_keys', 'alphabet_size', 'max_length', 'num_nodes',
-              'num_units', 'num_free_units', 'tail_length', 'lookup', 'decode', 'next_prefix'])
+              'num_units', 'num_free_units', 'tail_length', 'lookup', 'decode', 'next_prefix', 'next_predictive'])
 FUEL = {('tail_vector', 'match'): '(S (length v_key))', ('tail_vector', 'prefix_match'): '(S (length v_key))',
-        ('tail_vector', 'decode'): '(S (N.to_nat (alen (tv_chars s))))', ('trie', 'lookup'): '(S (length v_key))', ('trie', 'next_prefix'): '(S (length v_itr__m_key))', ('trie', 'decode'): '(S (N.to_nat (bc_num_units (t_bc s))))',
+        ('tail_vector', 'decode'): '(S (N.to_nat (alen (tv_chars s))))', ('trie', 'lookup'): '(S (length v_key))',
+        ('trie', 'next_predictive'): ['(S (length v_itr__m_key))', '(S (N.to_nat (bc_num_units (t_bc s))))'], ('trie', 'next_prefix'): '(S (length v_itr__m_key))', ('trie', 'decode'): '(S (N.to_nat (bc_num_units (t_bc s))))',
         ('bit_vector', 'select_for_block'): '64%nat', ('bc_vector_8', 'access'): '8%nat', ('bc_vector_16', 'access'): '4%nat'}
 BIT_TOOLS = {'bit_tools::popcount': 'popcount', 'bit_tools::select_in_word': 'select_in_word',
              'bit_tools::uleq_step_9': 'uleq_step_9', 'bit_tools::msb': 'msb'}
@@ -157,7 +158,8 @@ class P:
             if self.peek() == '[':
                 self.eat(); ix = self.expr(); self.eat(']'); e = ('index', e, ix)
             elif self.peek() == '.':
-                self.eat(); m = self.eat(); e = ('method', e, m, self.args())
+                self.eat(); m = self.eat()
+                e = ('method', e, m, self.args()) if self.peek() == '(' else ('field', e, m)
             else:
                 return e
     def primary(self):
@@ -170,6 +172,12 @@ class P:
             self.eat('}'); return ('tuple', es)
         if re.match(r'0[xX]|\d', tok):
             return ('num', int(re.sub(r'(ULL|UL|U|LL|L)$', '', tok), 0))
+        if tok.startswith("'"):
+            body = tok[1:-1]
+            esc = {'\\0': 0, '\\n': 10, '\\t': 9, '\\\\': 92, "\\'": 39}
+            return ('num', esc[body] if body in esc else ord(body))
+        if tok == '*' and self.peek() in FOREACH:      # *cit inside a translated range loop
+            return ('var', self.eat())
         if tok == 'static_cast':
             self.eat('<'); ty = self.eat(); self.eat('>'); self.eat('('); e = self.expr(); self.eat(')')
             if ty == 'std::uint64_t': return e
@@ -195,8 +203,11 @@ def split_stmts(p):
         out.append(stmt(p))
     return out
 
-TYPES = ('std::uint64_t', 'std::uint32_t', 'auto', 'bool')
+TYPES = ('std::uint64_t', 'std::uint32_t', 'auto', 'bool', 'char', 'std::string_view')
+RBEGIN_OK = [False]   # code_table::rbegin()/rend() are those of m_alphabet (checked in the header)
+FOREACH = set()       # iterator variables of the range loops being translated (`*cit` reads the element)
 CALLBACK = [None]     # name of the std::function<void(char)> parameter of the function being translated
+STRVARS = {}          # variables holding a std::string ('key') or the cursor stack ('stack') with statement-level methods
 OUTSTR = [None]       # name of the std::string& parameter that receives the result (modelled as the local `out`)
 def stmt(p):
     tok = p.peek()
@@ -223,6 +234,17 @@ def stmt(p):
     if tok == 'while':
         p.eat(); p.eat('('); c = p.expr(); p.eat(')'); p.eat('{'); a = split_stmts(p); p.eat('}')
         return ('while', c, a)
+    if tok == 'for':
+        p.eat(); p.eat('(')
+        if p.peek() == ';':                       # for (; cond; ++x) { body }
+            p.eat(); c = p.expr(); p.eat(';'); p.eat('++'); v = p.eat(); p.eat(')'); p.eat('{'); a = split_stmts(p); p.eat('}')
+            return ('while', c, a + [('assign', v, '=', ('bin', '+', ('var', v), ('num', 1)))])
+        # for (auto it = OBJ.rbegin(); it != OBJ.rend(); ++it) { body }   -- a read-only pass over a member range
+        p.eat('auto'); it = p.eat(); p.eat('='); obj = p.eat(); p.eat('.'); p.eat('rbegin'); p.eat('('); p.eat(')'); p.eat(';')
+        if [p.eat() for _ in range(7)] != [it, '!=', obj, '.', 'rend', '(', ')']: raise TErr('unsupported for header')
+        p.eat(';'); p.eat('++'); p.eat(it); p.eat(')'); p.eat('{')
+        FOREACH.add(it); a = split_stmts(p); FOREACH.discard(it); p.eat('}')
+        return ('foreach', it, obj, a)
     if tok == 'do':
         p.eat(); p.eat('{'); a = split_stmts(p); p.eat('}'); p.eat('while'); p.eat('(')
         # one post-increment in the condition: the condition sees the old value, the increment happens on both outcomes
@@ -269,6 +291,41 @@ def simple(p):
         out = ds[-1]
         for d in reversed(ds[:-1]): out = ('seq', d, out)
         return out
+    t = p.t[p.i:p.i + 12]
+    if len(t) > 3 and t[1] == '.' and t[0] != OUTSTR[0] and t[0] in STRVARS:
+        X = t[0]
+        if t[:6] == [X, '.', 'clear', '(', ')', ';']:
+            p.i += 6; return ('assign', X, '=', ('nil',))
+        if t[:4] == [X, '.', 'push_back', '('] and STRVARS[X] == 'key':
+            p.i += 4; e = p.expr(); p.eat(')'); p.eat(';')
+            return ('assign', X, '=', ('append', ('var', X), e))
+        if t[:5] == [X, '.', 'push_back', '(', '{'] and STRVARS[X] == 'stack':
+            p.i += 5; es = [p.expr()]
+            while p.peek() == ',': p.eat(); es.append(p.expr())
+            p.eat('}'); p.eat(')'); p.eat(';')
+            if len(es) != 3: raise TErr('a cursor has three fields')
+            return ('assign', X, '=', ('push', ('var', X), es))
+        if t[:6] == [X, '.', 'pop_back', '(', ')', ';'] and STRVARS[X] == 'stack':
+            p.i += 6; return ('assign', X, '=', ('pop', ('var', X)))
+        if t[:4] == [X, '.', 'resize', '('] and STRVARS[X] == 'key':
+            p.i += 4; e = p.expr(); p.eat(')'); p.eat(';')
+            return ('assign', X, '=', ('resize', ('var', X), e))
+        if t[:6] == [X, '.', 'back', '(', ')', '='] and STRVARS[X] == 'key':
+            p.i += 6; e = p.expr(); p.eat(';')
+            return ('assign', X, '=', ('setback', ('var', X), e))
+    if len(t) > 4 and t[1] == '.' and t[3] == '(' and OUTSTR[0] is None:
+        # OBJ.decode(e, [&](char c) { X.push_back(c); });  with X a byte-string variable
+        j, depth = p.i + 4, 1
+        while depth:
+            depth += {'(': 1, ')': -1}.get(p.t[j], 0); j += 1
+        seg = p.t[p.i:j + 1] if p.t[j] == ';' else []
+        for X in [x for x, k in STRVARS.items() if k == 'key']:
+            tailpat = ['[', '&', ']', '(', 'char', 'c', ')', '{', X, '.', 'push_back', '(', 'c', ')', ';', '}', ')', ';']
+            if len(seg) > len(tailpat) + 4 and seg[-len(tailpat):] == tailpat and seg[-len(tailpat) - 1] == ',':
+                sub = P(seg[4:-len(tailpat) - 1]); e = sub.expr()
+                if sub.peek() is not None: raise TErr('unsupported sink call')
+                p.i = j + 1
+                return ('assign', X, '=', ('appendl', ('var', X), ('method', ('var', seg[0]), seg[2], [e])))
     if OUTSTR[0] is not None:
         X = OUTSTR[0]; t = p.t[p.i:p.i + 12]
         if t[:6] == [X, '.', 'clear', '(', ')', ';']:
@@ -315,6 +372,9 @@ def assigned(stmts):
         elif s[0] in ('while', 'dowhile'):
             for x in assigned(s[2]) + ([s[3]] if s[0] == 'dowhile' and s[3] else []):
                 if x not in out: out.append(x)
+        elif s[0] == 'foreach':
+            for x in assigned(s[3]):
+                if x not in out: out.append(x)
     return out
 def declared(stmts):
     out = []
@@ -331,9 +391,17 @@ def has_return(stmts):
 class Gen:
     def __init__(self, C, fn, consts):
         self.C, self.fn, self.consts, self.n, self.tparams = C, fn, consts, 0, set()
+        self.loop_index = 0
     def fresh(self):
         self.n += 1; return 't%d' % self.n
     def lv(self, v): return 'v_' + v
+    def next_fuel(self):
+        """FUEL holds one expression per function, or a list with one per loop in source order; a loop that is compiled
+        twice (the code after an if that may return is continued in both branches) asks by its position"""
+        f = FUEL.get((self.C['cls'], self.fn))
+        if f is None: raise TErr('no fuel declared for the loop in %s::%s' % (self.C['cls'], self.fn))
+        if isinstance(f, str): return f
+        return f[self.loop_index]
 
     # --- expressions: returns (code, eff, ty)
     def seq(self, parts, build):
@@ -406,6 +474,12 @@ class Gen:
                 # short circuit: the right operand is only evaluated when needed
                 if op == 'and': return self.seq([l], lambda a: ('(if %s then %s else Ok false)' % (a[0], r[0]), True, 'bool'))
                 return self.seq([l], lambda a: ('(if %s then Ok true else %s)' % (a[0], r[0]), True, 'bool'))
+            if op in ('==', '!=') and e[2][0] == 'method' and e[2][2] == 'compare' and len(e[2][3]) == 3 and e[3] == ('num', 0):
+                # std::string::compare(pos, n, sv) == 0  <->  substr(pos, n) equals sv  (pos <= size here)
+                X = self.ex(e[2][1], env); a1 = self.to_N(self.ex(e[2][3][0], env)); a2 = self.to_N(self.ex(e[2][3][1], env)); y = self.ex(e[2][3][2], env)
+                if X[2] != 'key' or y[2] != 'key': raise TErr('compare on something that is not a byte string')
+                f = '(key_eqb (key_substr %s %s %s) %s)' if op == '==' else '(negb (key_eqb (key_substr %s %s %s) %s))'
+                return self.seq([X, a1, a2, y], lambda a: (f % (a[0], a[1], a[2], a[3]), False, 'bool'))
             l = self.ex(e[2], env); r = self.ex(e[3], env)
             if op in ('==', '!=') and l[2] == 'bool' and r[2] == 'bool':
                 f = '(Bool.eqb %s %s)' if op == '==' else '(negb (Bool.eqb %s %s))'
@@ -430,6 +504,21 @@ class Gen:
                 return self.seq([l, r], lambda a: ('(%sc %s %s)' % (nm, a[0], a[1]), True, 'N'))
             raise TErr('unsupported operator %s' % op)
         if k == 'nil': return ('([] : list N)', False, 'key')
+        if k == 'push':
+            st = self.ex(e[1], env); fs = [self.to_N(self.ex(x, env)) for x in e[2]]
+            return self.seq([st] + fs, lambda a: ('((mkCur %s %s %s) :: %s)' % (a[1], a[2], a[3], a[0]), False, 'stack'))
+        if k == 'pop':
+            return self.seq([self.ex(e[1], env)], lambda a: ('(tl %s)' % a[0], False, 'stack'))
+        if k == 'resize':
+            l = self.ex(e[1], env); n = self.to_N(self.ex(e[2], env))
+            return self.seq([l, n], lambda a: ('(key_resize %s %s)' % (a[0], a[1]), False, 'key'))
+        if k == 'setback':
+            l = self.ex(e[1], env); x = self.to_N(self.ex(e[2], env))
+            return self.seq([l, x], lambda a: ('(removelast %s ++ [%s])' % (a[0], a[1]), False, 'key'))
+        if k == 'field':
+            b = self.ex(e[1], env)
+            if b[2] != 'cursor' or e[2] not in ('label', 'kpos', 'npos'): raise TErr('unsupported member access .%s' % e[2])
+            return self.seq([b], lambda a: ('(c_%s %s)' % (e[2], a[0]), False, 'N'))
         if k == 'rev':
             return self.seq([self.ex(e[1], env)], lambda a: ('(rev %s)' % a[0], False, 'key'))
         if k == 'appendl':
@@ -455,6 +544,14 @@ class Gen:
                 return self.seq([b], lambda a: ('(match %s with Some _ => true | None => false end)' % a[0], False, 'bool'))
             if ty == 'optN' and m == 'value' and not e[3]:      # undefined behaviour on an empty optional: guarded by has_value
                 return self.seq([b], lambda a: ('(match %s with Some y_ => y_ | None => 0 end)' % a[0], False, 'N'))
+            if ty == 'key' and m == 'empty' and not e[3]:
+                return self.seq([b], lambda a: ('(match %s with [] => true | _ => false end)' % a[0], False, 'bool'))
+            if ty == 'key' and m == 'back' and not e[3]:       # undefined on an empty string: guarded by empty() / resize
+                return self.seq([b], lambda a: ('(last %s 0)' % a[0], False, 'N'))
+            if ty == 'stack' and m == 'empty' and not e[3]:
+                return self.seq([b], lambda a: ('(match %s with [] => true | _ => false end)' % a[0], False, 'bool'))
+            if ty == 'stack' and m == 'back' and not e[3]:     # the top of the stack (the list's head)
+                return self.seq([b], lambda a: ('(hd (mkCur 0 0 0) %s)' % a[0], False, 'cursor'))
             if ty == 'key' and m == 'size' and not e[3]:
                 return self.seq([b], lambda a: ('(lenN %s)' % a[0], False, 'N'))
             if ty == 'key' and m == 'substr' and len(e[3]) == 2:
@@ -504,11 +601,32 @@ class Gen:
             return self.seq([self.to_N(r)], lambda a: ('(Some %s)' % a[0], False, 'optN'))
         if ret_ty == 'key' and r[2] != 'key': raise TErr('a byte string is expected as result')
         return r
+    def number_loops(self, stmts):
+        self.loop_ids = {}
+        def walk(ss):
+            for s in ss:
+                if s[0] in ('while', 'dowhile'):
+                    self.loop_ids[id(s)] = len(self.loop_ids); walk(s[2])
+                elif s[0] == 'if': walk(s[2]); walk(s[3])
+                elif s[0] == 'seq': walk([s[1], s[2]])
+                elif s[0] == 'foreach': walk(s[3])
+        walk(stmts)
     def comp(self, stmts, env, fin, ret_ty, rw=None):
         """rw: how a returned value is wrapped (None at function level; '(Ret %s)' inside a loop that contains returns)"""
         if not stmts: return fin(env)
         s, rest = stmts[0], stmts[1:]
         k = s[0]
+        if id(s) in getattr(self, 'loop_ids', {}): self.loop_index = self.loop_ids[id(s)]
+        if k == 'foreach':
+            # a read-only pass over the alphabet of a code_table, last byte first (rbegin .. rend)
+            o = self.ex(('var', s[2]), env)
+            if o[2] != CT or not RBEGIN_OK[0]: raise TErr('range loop over something that is not a code_table alphabet')
+            vs = [v for v in assigned(s[3]) if v in env]
+            if not vs: raise TErr('range loop without state')
+            env2 = dict(env); env2[s[1]] = 'N'
+            b = self.comp(s[3], env2, lambda en: (self.tup(vs), False), None)
+            code = '(foreach_res (rev (alist (ct_alpha %s))) (fun %s %s => %s) %s)' % (o[0], self.pat(vs), self.lv(s[1]), self.lift(*b), self.tup(vs))
+            return self.bind(self.pat(vs), (code, True), self.comp(rest, env, fin, ret_ty, rw))
         if k == 'skip': return self.comp(rest, env, fin, ret_ty, rw)
         if k == 'seq': return self.comp([s[1], s[2]] + rest, env, fin, ret_ty, rw)
         if k == 'return':
@@ -519,7 +637,7 @@ class Gen:
         if k in ('decl', 'assign'):
             r = self.ex(s[2] if k == 'decl' else s[3], env)
             if k == 'assign' and s[1] not in env: raise TErr('assignment to unknown variable %s' % s[1])
-            if r[2] not in ('N', 'bool', 'key', 'optN'): raise TErr('unsupported local of type %s' % (r[2],))
+            if r[2] not in ('N', 'bool', 'key', 'optN', 'stack'): raise TErr('unsupported local of type %s' % (r[2],))
             env2 = dict(env); env2[s[1]] = r[2]
             return self.bind(self.lv(s[1]), (r[0], r[1]), self.comp(rest, env2, fin, ret_ty, rw))
         if k == 'declpair':
@@ -553,8 +671,7 @@ class Gen:
             if hasret and ret_ty is None: raise TErr('%s::%s: nested loop with return' % (self.C['cls'], self.fn))
             vs = [v for v in assigned([s]) if v in env]
             if not vs: raise TErr('loop without state')
-            fuel = FUEL.get((self.C['cls'], self.fn))
-            if fuel is None: raise TErr('no fuel declared for the loop in %s::%s' % (self.C['cls'], self.fn))
+            fuel = self.next_fuel()
             c = self.to_bool(self.ex(s[1], env))
             tup = self.tup(vs)
             if k == 'while':
@@ -576,8 +693,7 @@ class Gen:
         if k == 'while':
             vs = [v for v in assigned(s[2]) if v in env]
             if not vs: raise TErr('loop without state')
-            fuel = FUEL.get((self.C['cls'], self.fn))
-            if fuel is None: raise TErr('no fuel declared for the loop in %s::%s' % (self.C['cls'], self.fn))
+            fuel = self.next_fuel()
             c = self.to_bool(self.ex(s[1], env))
             b = self.comp(s[2], env, lambda en: (self.tup(vs), False), None)
             code = '(while_res %s (fun %s => %s) (fun %s => %s) %s)' % (fuel, self.pat(vs), self.lift(c[0], c[1]),
@@ -617,6 +733,7 @@ def find_function(src, name, cls):
             elif ty == 'std::function<void(char)>': cb = an
             elif ty == 'std::string' and '&' in a and 'const' not in a: outs = an     # the result is written into it
             elif ty == 'prefix_iterator*' or (ty == 'prefix_iterator' and a.replace(' ', '').find('prefix_iterator*') >= 0): args.append(('pfxit', an))
+            elif ty == 'predictive_iterator*' or (ty == 'predictive_iterator' and a.replace(' ', '').find('predictive_iterator*') >= 0): args.append(('predit', an))
             else: ok = False
         if not ok: continue
         d = dict(static='static' in m.group(2), ret=m.group(3), args=args, body=src[b0:k - 1], tparam=m.group(1), cb=cb, outs=outs)
@@ -649,6 +766,9 @@ def own_body(src, cls):
     return ''.join(out)
 
 def emit_class(C, inc, L):
+    ct = re.sub(r'//[^\n]*', '', open(os.path.join(inc, 'xcdat', 'code_table.hpp')).read())
+    RBEGIN_OK[0] = bool(re.search(r'rbegin\(\)\s*const\s*\{\s*return\s+m_alphabet\.rbegin\(\);\s*\}', ct) and
+                        re.search(r'rend\(\)\s*const\s*\{\s*return\s+m_alphabet\.rend\(\);\s*\}', ct))
     src = open(os.path.join(inc, 'xcdat', C['file'])).read()
     src = re.sub(r'//[^\n]*', '', src)
     src = own_body(src, C['cls'])
@@ -663,18 +783,27 @@ def emit_class(C, inc, L):
         g = Gen(C, fn, consts)
         if f['tparam']: g.tparams.add(f['tparam'])     # only ever instantiated with non-zero literals
         CALLBACK[0] = f['cb']; OUTSTR[0] = f['outs']
-        env = {a: ('key' if kd == 'key' else 'N') for kd, a in f['args'] if kd != 'pfxit'}
-        text, pro, rw0 = f['body'], '', None
+        env = {a: ('key' if kd == 'key' else 'N') for kd, a in f['args'] if kd not in ('pfxit', 'predit')}
+        text, pro, rw0, itrec = f['body'], '', None, None
+        STRVARS.clear()
         for kd, a in f['args']:
-            if kd == 'pfxit':      # the iterator's fields become locals; every return also yields the updated iterator
+            if kd in ('pfxit', 'predit'):      # the iterator's fields become locals; every return also yields the updated iterator
                 text = re.sub(r'\b%s\s*->\s*' % re.escape(a), a + '__', text)
-                fields = [('m_key', 'key', 'p_key'), ('m_id', 'N', 'p_id'), ('m_kpos', 'N', 'p_kpos'), ('m_npos', 'N', 'p_npos'),
-                          ('is_beg', 'bool', 'p_beg'), ('is_end', 'bool', 'p_end')]
+                if kd == 'pfxit':
+                    fields = [('m_key', 'key', 'p_key'), ('m_id', 'N', 'p_id'), ('m_kpos', 'N', 'p_kpos'), ('m_npos', 'N', 'p_npos'),
+                              ('is_beg', 'bool', 'p_beg'), ('is_end', 'bool', 'p_end')]
+                    mk, ob, itrec = 'mkPfx', 'p_obj', 'pfx_it'
+                else:
+                    fields = [('m_key', 'key', 'd_key'), ('m_id', 'N', 'd_id'), ('m_decoded', 'key', 'd_dec'), ('m_stack', 'stack', 'd_stack'),
+                              ('is_beg', 'bool', 'd_beg'), ('is_end', 'bool', 'd_end')]
+                    mk, ob, itrec = 'mkPred', 'd_obj', 'pred_it'
+                    STRVARS['%s__m_decoded' % a] = 'key'; STRVARS['%s__m_stack' % a] = 'stack'
                 for fl, ty, acc in fields:
                     env['%s__%s' % (a, fl)] = ty
                     pro += '(let v_%s__%s := %s v_%s in ' % (a, fl, acc, a)
-                rw0 = '((mkPfx (p_obj v_%s) %s), %%s)' % (a, ' '.join('v_%s__%s' % (a, fl) for fl, _, _ in fields))
+                rw0 = '((%s (%s v_%s) %s), %%s)' % (mk, ob, a, ' '.join('v_%s__%s' % (a, fl) for fl, _, _ in fields))
         body = split_stmts(P(tokenize(text)))
+        g.number_loops(body)
         if ret == 'out':
             env['out'] = 'key'
             code, eff = g.comp(body, env, lambda en: ('v_out', False), ret)
@@ -690,8 +819,8 @@ def emit_class(C, inc, L):
         SIGS[(C['cls'], fn)] = dict(eff=eff, ret='key' if ret == 'out' else ret, nargs=len(f['args']), static=f['static'],
                                     ptypes=[kd for kd, _ in f['args']])
         cty = {'bool': 'bool', 'N': 'N', 'pair2': '(N * N)', 'optN': '(option N)', 'key': '(list N)', 'out': '(list N)'}[ret]
-        if rw0: cty = '(pfx_it * %s)' % cty
-        pty = {'key': 'list N', 'pfxit': 'pfx_it'}
+        if rw0: cty = '(%s * %s)' % (itrec, cty)
+        pty = {'key': 'list N', 'pfxit': 'pfx_it', 'predit': 'pred_it'}
         params = ('' if f['static'] else '(s : %s) ' % C['rec']) + ' '.join('(v_%s : %s)' % (a, pty.get(kd, 'N')) for kd, a in f['args'])
         if ret == 'out' and f['outs'] is not None:
             params += ' (v_out : list N)'      # the caller's buffer, with whatever it held before
@@ -728,7 +857,7 @@ def main():
     write(out, L)
     if out2:
         L2 = ['(* GENERATED by translator/access.py from %s/xcdat/trie.hpp -- do not edit *)' % inc,
-              'From X Require Import Base Arr Consts BitToolsSpec BitToolsGen BitVector CompactVector Dac Tail Trie AccessLib AccessGen AccessDispatch.',
+              'From X Require Import Base Arr Consts BitToolsSpec BitToolsGen BitVector CompactVector Dac Tail Trie Spec AccessLib AccessGen AccessDispatch.',
               'Local Open Scope N_scope.', '']
         one(TRIE, L2)
         write(out2, L2)
